@@ -7,7 +7,7 @@ rsync -a --exclude .git --exclude '*.so' --exclude '__pycache__' /repo/ "$D/"
 if [ -f "$MUT" ]; then
   (cd "$D" && patch -p1 -s < "$MUT") || { echo "patch failed"; rm -rf "$D"; exit 3; }
 else
-  EXPR=${MUT%%::*}; FILE=${MUT##*::}
+  EXPR=${MUT%%@@@*}; FILE=${MUT##*@@@}
   cp "$D/$FILE" "$D/$FILE.orig"
   sed -i "$EXPR" "$D/$FILE"
   if cmp -s "$D/$FILE" "$D/$FILE.orig"; then echo "mutation did not change $FILE"; rm -rf "$D"; exit 3; fi
